@@ -13,6 +13,7 @@ import (
 	"net/http/httptest"
 	"path"
 	"reflect"
+	"runtime"
 	"strings"
 	"sync"
 	"time"
@@ -477,6 +478,12 @@ func runC20(env *Env) error {
 		var calls []map[string]interface{}
 		for _, c := range sc["calls"].([]interface{}) {
 			calls = append(calls, c.(map[string]interface{}))
+		}
+		if p, ok := sc["procs"].(float64); ok && p >= 1 { // a single P makes per-P caches (sync.Pool) shared by everything
+			old := runtime.GOMAXPROCS(int(p))
+			c20Scenario(rng, i+1, sc["transport"].(string), sc["order"].(string), calls, env.W)
+			runtime.GOMAXPROCS(old)
+			continue
 		}
 		c20Scenario(rng, i+1, sc["transport"].(string), sc["order"].(string), calls, env.W)
 	}
